@@ -102,6 +102,17 @@ def run(ctx):
     residual, stale = panics.apply_audit(res, "R18.2", inv, audit)
     for k in stale:
         res.note("stale audit entry: " + k)
+    # lemma behind the audited `file_name().expect(..)` in split_file_name: path_has_name(p) is true only if p.file_name().is_some()
+    phn = fx.body("clap_complete::engine::custom::path_has_name")
+    sfn = fx.body("clap_complete::engine::custom::split_file_name")
+    truthy = [d for d in phn.def_sites(0) if not (isinstance(d[3], dict) and d[3]["k"] == "use" and op_int(d[3]["op"]) == 0)]
+    okl = bool(truthy) and all((not isinstance(d[3], dict)) and d[3].callee_q.endswith("Option::is_some") and expr(phn, d[3].args[0]) == "file_name(path)" for d in truthy)
+    res.check(okl, "R18.2", "lemma|path_has_name=>file_name-is-some", phn.where(), "every non-false result of path_has_name is path.file_name().is_some()",
+              "path_has_name can return true without path.file_name().is_some() (%s): split_file_name's expect(\"not called with `..`\") panics for words ending in `.` / `..`" % [
+                  (d[3] if isinstance(d[3], dict) else d[3].callee_q.rsplit("::", 1)[1] + "(" + expr(phn, d[3].args[0])[:40] + ")") for d in truthy][:2])
+    exs = [c for c in sfn.calls_to(r"Option::expect$") if expr(sfn, c.args[0]) == "file_name(path)"]
+    res.check(all(has_bool(sfn, c.bb, "T", r"^path_has_name\(path\)$") for c in exs), "R18.2", "lemma|expect-under-path_has_name", sfn.where(), "file_name().expect only under path_has_name(path)",
+              "split_file_name unwraps file_name() outside the path_has_name(path) edge")
     # the adapters' `args.len() - 1` is only sound because the internal caller guards non-emptiness
     tc = fx.body("clap_complete::env::CompleteEnv::try_complete_")
     wc = tc.calls_to(r"EnvCompleter::write_complete$")
@@ -171,6 +182,15 @@ def run(ctx):
         res.check(len(hs) == 1 and re.match(r"^is_hide_set\(", expr(b, hs[0].args[1], 4)) is not None, "R18.3", "hidden-from-item|" + fn_, b.where(),
                   "candidate visibility copied from the item's is_hide_set()", "%s does not copy is_hide_set() of the item" % fn_)
 
+    # ---------------- R18.4b the shadow parse resolves flags the way the real parser's key map does: primary spelling AND visible aliases
+    for fn_, want in (("parse_shortflags", "get_short_and_visible_aliases"), ("complete", "get_long_and_visible_aliases")):
+        b_ = fx.body("clap_complete::engine::complete::" + fn_)
+        fnd = [c for c in b_.calls_to(r"Iterator>?::(find|find_map|position|any)$") if re.match(r"^get_arguments\((cmd|current_cmd)\)$", expr(b_, c.args[0]))]
+        res.floor("R18.4", "argument lookup in %s" % fn_, len(fnd), 1)
+        for c in fnd:
+            used = sorted(set(cc.callee_q.rsplit("::", 1)[1] for cb in closure_bodies(fx, c) for x in tree(cb) for cc in x.calls() if cc.callee_q and cc.callee_q.startswith("clap_builder::builder::arg::Arg::")))
+            res.check(want in used, "R18.4", "lookup-alias-aware|" + fn_, c.where(), "argument looked up through %s" % want,
+                      "%s identifies the argument of a flag through %s only: a visible alias (which the real parser accepts) is not recognised, so the shadow parse goes out of step (offers stacked flags where a value is expected, forgets the pending option)" % (fn_, used))
     # ---------------- R18.3b nothing but the reviewed tests can drop a candidate (completeness side)
     OKC = (r"(candidate::CompletionCandidate::(get_value|is_hide_set|get_id|get_tag|get_display_order|new|help|hide|id|tag|display_order|add_prefix)|arg::Arg::(get_\w+|is_positional)|"
            r"possible_value::PossibleValue::(get_\w+|is_hide_set)|complete::populate_arg_candidate|command::Command::get_\w+)$")
